@@ -1,6 +1,7 @@
 """C14 — journal-backed zones: write-ahead order; journal error => no mutation; post-update SOA row; replay with
 auto-increment off; all rows of one UPDATE in one transaction; prescan/apply agreement."""
 import re
+import argnames
 import core
 from api import shorten
 
@@ -221,3 +222,8 @@ def run(cx):
             vs = cx.assigns(su, r'.', place=r'version$')
             cx.check('C14.P4', len(vs) >= 1, su.path, 'stores', 'in-memory-version-store-present', str(len(vs)))
             cx.must_pass('C14.P4', su, vs, via_blocks={commit[0].bb}, what='in-memory-version-advances-only-after-COMMIT')
+
+    # ---------------------------------------------------------------- N1 argument names agree with the parameters they are bound to (engine/argnames.py)
+    argnames.check(cx, 'C14.N1', r'hickory_server::store::sqlite', floor=20)
+    argnames.check_fields(cx, 'C14.N1', r'hickory_server::store::sqlite', floor=3)
+
